@@ -4,6 +4,8 @@
 -/
 import CSD.Model.VByte
 import CSD.Model.LogSeq
+import CSD.Model.PFCLoad
+import CSD.Model.DAC
 import CSD.Driver.Util
 
 namespace CSD.Driver
@@ -47,11 +49,37 @@ def runLogSeq (c : Case) (emit : Nat → String → IO Unit) : IO Unit := do
         | none => "FAULT"
       emit k s!"LA {",".intercalate vs}"
     | ["image"] => emit k s!"LI {hexOfBytes s.save}"
-    | ["reload"] => emit k "LR consumed=all"
+    | ["reload"] =>
+      -- the model of `LogSequence(std::istream&)` parses the model's own image followed by a trailer
+      let trailer : List UInt8 := [0x54, 0x52, 0x41, 0x49, 0x4c, 0x45, 0x52, 0x21]
+      match LogSeq.load (s.save ++ trailer) with
+      | some (s', rest) =>
+        if rest == trailer then s := s'; emit k "LR consumed=all"
+        else emit k "LR consumed=not-all"
+      | none => emit k "LR MODEL-FAULT"
     | "vec" :: vs =>
       match LogSeq.ofList (vs.map fun v => v.toNat?.getD 0) w with
       | some s' => s := s'; emit k "LV ok"
       | none => emit k "LV FAULT"
+    | _ => emit k "ERR unknown-op"
+
+/-- The DAC stream: layout and accesses of the exact model. -/
+def runDac (c : Case) (emit : Nat → String → IO Unit) : IO Unit := do
+  let mut k := 0
+  for op in c.ops do
+    k := k + 1
+    match op with
+    | "dac" :: _ :: seqs :: _ =>
+      let L : List (List Nat) := (seqs.splitOn ";").map fun sq => (sq.splitOn ",").map fun x => x.toNat?.getD 0
+      let d := DAC.build L
+      let idx := ",".intercalate (d.levelsIndex.map toString)
+      let bits := String.mk (d.bits.map fun b => if b then '1' else '0')
+      let accs := (List.range d.listLength).map fun i =>
+        match DAC.access d (i + 1) with
+        | some sq => ",".intercalate (sq.map toString)
+        | none => "MODEL-FAULT"
+      let acc := ";".intercalate accs
+      emit k s!"DAC n={d.nLevels} len={d.listLength} idx={idx} bits={if bits.isEmpty then "-" else bits} acc={if acc.isEmpty then "-" else acc} nxt={if acc.isEmpty then "-" else acc}"
     | _ => emit k "ERR unknown-op"
 
 /-- The pool stream: what every terminating run must report (exactly-once, C10). -/
